@@ -95,7 +95,7 @@ type Feed struct {
 // TagRule derives a tag from an IP's path.
 type TagRule struct {
 	Key  string `json:"key"`
-	Rule string `json:"rule"` // stem | ext | const:<v> | idx (digits of the basename)
+	Rule string `json:"rule"` // stem | ext | const:<v> | idx (digits of the basename) | noext | sparse3 | blank (attached with an empty value)
 }
 
 // Conn connects an out-port to an in-port.
